@@ -52,4 +52,8 @@ THost        == l = 0 \/ O.n = 0 \/ HostRule(C, O)
 TBody        == l = 0 \/ O.n = 0 \/ BodyKept(C, O)
 THeadersKept == l = 0 \/ O.n = 0 \/ HeadersKept(C, O)
 TNoForeign   == l = 0 \/ O.n = 0 \/ NoForeign(C, O)
+\* Content-Length / Transfer-Encoding exactly as the body demands (with or without side channels)
+TFraming     == l = 0 \/ O.n = 0 \/ FramingOK(C, O)
+\* TLS server name = the target's name as configured
+TSNI         == l = 0 \/ O.n = 0 \/ SNIOK(C, O)
 =============================================================================
